@@ -464,6 +464,8 @@ class SList:
 
     def _sym_getitem(self, idx):
         if isinstance(idx, slice):
+            if idx.step == -1 and idx.stop is None and isinstance(idx.start, int) and idx.start < 0:
+                return RevView(self, idx.start)     # xs[-k::-1]: from the k-th last element down to the first
             if idx.step is not None:
                 raise Unsupported('list slice step')
             n = self._sym_len()
@@ -564,6 +566,26 @@ class SList:
         if isinstance(r, SBool):
             r.pos = True
         return r
+
+
+class RevView:
+    """read-only view xs[start::-1] for a negative constant start (iteration only)"""
+
+    def __init__(self, base, start):
+        self.base, self.start = base, start
+        self.n = base._sym_len()
+
+    def _sym_len(self):
+        from .sym import smax
+        return smax(self.n + self.start + 1, 0)
+
+    def _sym_truth(self):
+        return truth(self._sym_len() > 0)
+
+    def _sym_getitem(self, k):
+        if isinstance(k, slice):
+            raise Unsupported('slice of a reversed view')
+        return self.base._sym_getitem(self.n + self.start - k)
 
 
 def _syn_eq(a, b):
